@@ -1,1 +1,260 @@
+(* ParserProofs.v — streaming parsers are prefix-stable: a verdict reached on a prefix of the
+   stream (Ok / Error / Failure) is the verdict on every extension.  Closure of that property
+   under every nom combinator used by parser.rs, hence for the whole grammar. *)
+From Coq Require Import ZifyBool ZifyN ZifyNat.
 From MPD Require Import Bytes Tables ParserModel.
+Open Scope N_scope.
+
+Definition good {A} (p : parser A) : Prop :=
+  forall a,
+    (forall n v, p a = ROk n v -> (n <= length a)%nat /\ forall x, p (a ++ x) = ROk n v) /\
+    (p a = RError -> forall x, p (a ++ x) = RError) /\
+    (p a = RFailure -> forall x, p (a ++ x) = RFailure).
+
+(* consumes at least one byte on success *)
+Definition pos {A} (p : parser A) : Prop := forall a n v, p a = ROk n v -> (1 <= n)%nat.
+
+Lemma firstn_app_le {A} n (a x : list A) : (n <= length a)%nat -> firstn n (a ++ x) = firstn n a.
+Proof.
+  intros H. rewrite firstn_app. replace (n - length a)%nat with O by lia. simpl. apply app_nil_r.
+Qed.
+
+Lemma skipn_app_le {A} n (a x : list A) : (n <= length a)%nat -> skipn n (a ++ x) = skipn n a ++ x.
+Proof.
+  intros H. rewrite skipn_app. replace (n - length a)%nat with O by lia. reflexivity.
+Qed.
+
+(* ---------- primitives ---------- *)
+
+Lemma good_tag t : good (p_tag t).
+Proof.
+  induction t as [|c t IH]; intros a.
+  - simpl. repeat split; try discriminate. + inversion H; lia. + inversion H; subst. reflexivity.
+  - destruct a as [|d a]; simpl.
+    + repeat split; discriminate.
+    + destruct (c =? d); [|repeat split; try discriminate; reflexivity].
+      destruct (IH a) as (I1 & I2 & I3).
+      destruct (p_tag t a) as [n v| | |] eqn:E.
+      * destruct (I1 n v eq_refl) as [L S]. repeat split; try discriminate.
+        -- inversion H; subst. simpl. lia.
+        -- intros x. inversion H; subst. rewrite S. reflexivity.
+      * repeat split; discriminate.
+      * repeat split; try discriminate. intros _ x. rewrite (I2 eq_refl x). reflexivity.
+      * repeat split; try discriminate. intros _ x. rewrite (I3 eq_refl x). reflexivity.
+Qed.
+
+Lemma span_len_app p a n x : span_len p a = Some n -> (n < length a)%nat /\ span_len p (a ++ x) = Some n.
+Proof.
+  revert n; induction a as [|c a IH]; simpl; intros n H; [discriminate|].
+  destruct (p c).
+  - destruct (span_len p a) as [m|] eqn:E; simpl in H; [|discriminate]. inversion H; subst.
+    destruct (IH m eq_refl) as [L S]. rewrite S. simpl. split; [lia | reflexivity].
+  - inversion H; subst. split; [lia | reflexivity].
+Qed.
+
+Lemma good_take_while p : good (p_take_while p).
+Proof.
+  intros a. unfold p_take_while. destruct (span_len p a) as [m|] eqn:E; repeat split; try discriminate.
+  - inversion H; subst. apply (span_len_app p a n []) in E. lia.
+  - intros x. inversion H; subst. destruct (span_len_app p a n x E) as [L S]. rewrite S.
+    rewrite firstn_app_le by lia. reflexivity.
+Qed.
+
+Lemma good_take_while1 p : good (p_take_while1 p).
+Proof.
+  intros a. unfold p_take_while1. destruct (span_len p a) as [m|] eqn:E; [|repeat split; discriminate].
+  destruct (span_len_app p a m [] E) as [L _].
+  destruct m as [|m]; repeat split; try discriminate.
+  - intros _ x. destruct (span_len_app p a 0 x E) as [_ S]. rewrite S. reflexivity.
+  - inversion H; subst. lia.
+  - intros x. inversion H; subst. destruct (span_len_app p a (S m) x E) as [_ S]. rewrite S.
+    rewrite firstn_app_le by lia. reflexivity.
+Qed.
+
+Lemma pos_take_while1 p : pos (p_take_while1 p).
+Proof.
+  intros a n v. unfold p_take_while1. destruct (span_len p a) as [[|m]|]; try discriminate.
+  intros H. inversion H. lia.
+Qed.
+
+Lemma good_take n : good (p_take n).
+Proof.
+  intros a. unfold p_take. destruct (N.of_nat (length a) <? n) eqn:E; repeat split; try discriminate.
+  - inversion H; subst. lia.
+  - intros x. inversion H; subst. rewrite app_length.
+    assert (E2 : (N.of_nat (length a + length x) <? n) = false) by lia. rewrite E2.
+    rewrite firstn_app_le by lia. reflexivity.
+Qed.
+
+Lemma good_char c : good (p_char c).
+Proof.
+  intros a. unfold p_char. destruct a as [|x a]; [repeat split; discriminate|]. simpl.
+  destruct (x =? c); repeat split; try discriminate; try reflexivity.
+  - inversion H; subst. simpl. lia.
+  - intros y. exact H.
+Qed.
+
+Lemma pos_char c : pos (p_char c).
+Proof. intros a n v. unfold p_char. destruct a as [|x a]; [discriminate|]. destruct (x =? c); [|discriminate]. intros H; inversion H; lia. Qed.
+
+Lemma pos_tag c t : pos (p_tag (c :: t)).
+Proof.
+  intros a n v. simpl. destruct a as [|d a]; [discriminate|]. destruct (c =? d); [|discriminate].
+  destruct (p_tag t a); try discriminate. intros H; inversion H; lia.
+Qed.
+
+Lemma good_ret {A} (v : A) : good (p_ret v).
+Proof. intros a. unfold p_ret. repeat split; try discriminate. - inversion H; lia. - inversion H; reflexivity. Qed.
+
+(* ---------- combinators ---------- *)
+
+Lemma good_bind {A B} (p : parser A) (f : A -> parser B) :
+  good p -> (forall v, good (f v)) -> good (p_bind p f).
+Proof.
+  intros Gp Gf a. unfold p_bind. destruct (Gp a) as (P1 & P2 & P3).
+  destruct (p a) as [n v| | |] eqn:E.
+  - destruct (P1 n v eq_refl) as [L S]. destruct (Gf v (skipn n a)) as (F1 & F2 & F3).
+    assert (LS : length (skipn n a) = (length a - n)%nat) by apply skipn_length.
+    destruct (f v (skipn n a)) as [m w| | |] eqn:Ef.
+    + destruct (F1 m w eq_refl) as [L2 S2]. repeat split; try discriminate.
+      * inversion H; subst. lia.
+      * intros x. inversion H; subst. rewrite S, skipn_app_le by lia. rewrite S2. reflexivity.
+    + repeat split; discriminate.
+    + repeat split; try discriminate. intros _ x. rewrite S, skipn_app_le by lia. rewrite (F2 eq_refl x). reflexivity.
+    + repeat split; try discriminate. intros _ x. rewrite S, skipn_app_le by lia. rewrite (F3 eq_refl x). reflexivity.
+  - repeat split; discriminate.
+  - repeat split; try discriminate. intros _ x. rewrite (P2 eq_refl x). reflexivity.
+  - repeat split; try discriminate. intros _ x. rewrite (P3 eq_refl x). reflexivity.
+Qed.
+
+Lemma pos_bind_l {A B} (p : parser A) (f : A -> parser B) : pos p -> pos (p_bind p f).
+Proof.
+  intros Pp a n v. unfold p_bind. destruct (p a) as [m w| | |] eqn:E; try discriminate.
+  destruct (f w (skipn m a)); try discriminate. intros H; inversion H; subst. specialize (Pp a m w E). lia.
+Qed.
+
+Lemma good_map_res {A B} (p : parser A) (f : A -> option B) : good p -> good (p_map_res p f).
+Proof.
+  intros Gp a. unfold p_map_res. destruct (Gp a) as (P1 & P2 & P3).
+  destruct (p a) as [n v| | |] eqn:E.
+  - destruct (P1 n v eq_refl) as [L S]. destruct (f v) as [w|] eqn:Ef; repeat split; try discriminate.
+    + inversion H; subst. lia.
+    + intros x. inversion H; subst. rewrite S, Ef. reflexivity.
+    + intros _ x. rewrite S, Ef. reflexivity.
+  - repeat split; discriminate.
+  - repeat split; try discriminate. intros _ x. rewrite (P2 eq_refl x). reflexivity.
+  - repeat split; try discriminate. intros _ x. rewrite (P3 eq_refl x). reflexivity.
+Qed.
+
+Lemma pos_map_res {A B} (p : parser A) (f : A -> option B) : pos p -> pos (p_map_res p f).
+Proof.
+  intros Pp a n v. unfold p_map_res. destruct (p a) as [m w| | |] eqn:E; try discriminate.
+  destruct (f w); try discriminate. intros H; inversion H; subst. exact (Pp a n w E).
+Qed.
+
+Lemma good_map {A B} (p : parser A) (f : A -> B) : good p -> good (p_map p f).
+Proof. intros G. apply good_map_res. exact G. Qed.
+
+Lemma pos_map {A B} (p : parser A) (f : A -> B) : pos p -> pos (p_map p f).
+Proof. intros G. apply pos_map_res. exact G. Qed.
+
+Lemma good_opt {A} (p : parser A) : good p -> good (p_opt p).
+Proof.
+  intros Gp a. unfold p_opt. destruct (Gp a) as (P1 & P2 & P3).
+  destruct (p a) as [n v| | |] eqn:E.
+  - destruct (P1 n v eq_refl) as [L S]. repeat split; try discriminate.
+    + inversion H; subst. lia.
+    + intros x. inversion H; subst. rewrite S. reflexivity.
+  - repeat split; discriminate.
+  - repeat split; try discriminate.
+    + inversion H; lia.
+    + intros x. inversion H; subst. rewrite (P2 eq_refl x). reflexivity.
+  - repeat split; try discriminate. intros _ x. rewrite (P3 eq_refl x). reflexivity.
+Qed.
+
+Lemma good_cut {A} (p : parser A) : good p -> good (p_cut p).
+Proof.
+  intros Gp a. unfold p_cut. destruct (Gp a) as (P1 & P2 & P3).
+  destruct (p a) as [n v| | |] eqn:E.
+  - destruct (P1 n v eq_refl) as [L S]. repeat split; try discriminate.
+    + inversion H; subst. lia.
+    + intros x. inversion H; subst. rewrite S. reflexivity.
+  - repeat split; discriminate.
+  - repeat split; try discriminate. intros _ x. rewrite (P2 eq_refl x). reflexivity.
+  - repeat split; try discriminate. intros _ x. rewrite (P3 eq_refl x). reflexivity.
+Qed.
+
+Lemma good_alt {A} (p q : parser A) : good p -> good q -> good (p_alt p q).
+Proof.
+  intros Gp Gq a. unfold p_alt. destruct (Gp a) as (P1 & P2 & P3). destruct (Gq a) as (Q1 & Q2 & Q3).
+  destruct (p a) as [n v| | |] eqn:E.
+  - destruct (P1 n v eq_refl) as [L S]. repeat split; try discriminate.
+    + inversion H; subst. lia.
+    + intros x. inversion H; subst. rewrite S. reflexivity.
+  - repeat split; discriminate.
+  - repeat split.
+    + apply (Q1 n v H).
+    + intros x. rewrite (P2 eq_refl x). apply (Q1 n v H).
+    + intros H x. rewrite (P2 eq_refl x). apply (Q2 H).
+    + intros H x. rewrite (P2 eq_refl x). apply (Q3 H).
+  - repeat split; try discriminate. intros _ x. rewrite (P3 eq_refl x). reflexivity.
+Qed.
+
+Lemma pos_alt {A} (p q : parser A) : pos p -> pos q -> pos (p_alt p q).
+Proof.
+  intros Pp Pq a n v. unfold p_alt. destruct (p a) as [m w| | |] eqn:E; try discriminate.
+  - intros H; inversion H; subst. exact (Pp a n v E).
+  - apply Pq.
+Qed.
+
+(* ---------- the grammar ---------- *)
+
+Ltac good_tac :=
+  repeat first
+    [ apply good_cut | apply good_opt | apply good_map | apply good_map_res | apply good_alt
+    | apply good_bind; [|intro]
+    | apply good_tag | apply good_take_while1 | apply good_take_while | apply good_take
+    | apply good_char | apply good_ret ].
+
+Lemma good_number bits : good (p_number bits).
+Proof. unfold p_number. good_tac. Qed.
+
+Lemma good_greeting : good p_greeting.
+Proof. unfold p_greeting, p_newline. good_tac. Qed.
+
+Lemma good_parse_component : good parse_component.
+Proof.
+  unfold parse_component, p_error, p_binary, p_binary_prefix, p_key_value, p_field_value,
+    p_code_and_index, p_current_command, p_number, p_newline.
+  good_tac.
+Qed.
+
+Lemma pos_parse_component : pos parse_component.
+Proof.
+  unfold parse_component.
+  repeat apply pos_alt.
+  - apply pos_map. apply pos_tag.
+  - apply pos_map. apply pos_tag.
+  - unfold p_error. apply pos_bind_l. apply pos_tag.
+  - unfold p_binary. apply pos_bind_l. unfold p_binary_prefix. apply pos_bind_l. apply pos_tag.
+  - unfold p_key_value. apply pos_bind_l. apply pos_map_res. apply pos_take_while1.
+Qed.
+
+Lemma pos_greeting : pos p_greeting.
+Proof. unfold p_greeting. apply pos_bind_l. apply pos_tag. Qed.
+
+(* the three facts the connection layer uses *)
+Lemma parse_ok_stable a n c :
+  parse_component a = ROk n c -> (1 <= n <= length a)%nat /\ forall x, parse_component (a ++ x) = ROk n c.
+Proof.
+  intros H. destruct (good_parse_component a) as (G & _). destruct (G n c H) as [L S].
+  pose proof (pos_parse_component a n c H). split; [lia | exact S].
+Qed.
+
+Lemma parse_invalid_stable a :
+  parse_component a = RError \/ parse_component a = RFailure ->
+  forall x, parse_component (a ++ x) = RError \/ parse_component (a ++ x) = RFailure.
+Proof.
+  intros H x. destruct (good_parse_component a) as (_ & G2 & G3).
+  destruct H as [H|H]; [left; apply G2 | right; apply G3]; exact H.
+Qed.
